@@ -86,3 +86,56 @@ prop(
     must_see=[("multiset_equal", 60), ("fault_abort", 20), ("shuffle_step_families_faulted", 7)],
     watchdog_s={"quick": 1500, "thorough": 10800},
 )
+
+prop(
+    "C06",
+    level="exploration",
+    rule=("direct: three endpoints (make_participants and the real negotiate_prss path) x 10 step names (incl. concatenation look-alikes a/b, "
+          "ab, aa, bit1/bit10) x 11 indices (0 .. u32::MAX) x single and multi-block draws: right value == right neighbour's left value, "
+          "all values pairwise distinct across (pair, step, index, offset); offsets 0..=2048 served and distinct, 2049 panics; sequential "
+          "generators agree and are exclusive with indexed access; cross-shard randomness (real gen_and_distribute and the context's) "
+          "identical on all shards of a helper and matching neighbours. log monitor: every PRSS draw of complete hybrid queries (1-2 "
+          "shards, several sizes, padding on/off) and sharded shuffles (0..257 rows, 1-5 shards) is recorded by hook H5 and checked offline: "
+          "no (generator, index:offset) drawn twice, equal outputs only for equal (step, index:offset). distinct = (origin, step, index, "
+          "blocks) / (workload, number of distinct draws)"),
+    assumptions=["statistical independence of AES outputs is not observable; only equality / inequality of outputs is checked",
+                 "a 128-bit accidental collision is ignored as impossible"],
+    shards={"quick": 10, "thorough": 16},
+    min_evaluations={"quick": 500, "thorough": 5000},
+    must_see=[("prss_draws_checked", 100000), ("offset_beyond_cap_panics", 4), ("cross_shard_values_agree", 8), ("negotiated_worlds", 4)],
+    watchdog_s={"quick": 1500, "thorough": 7200},
+)
+
+prop(
+    "C16",
+    level="exploration",
+    rule=("history = (total n, records-per-batch 1..4, arrival permutation of the n validate_record calls, set of batches whose "
+          "check returns Err, order in which the harness lets the batch checks finish (in order / reverse / seeded), driving mode "
+          "{sequential: each call driven as far as it can go, concurrent: all calls first, interleaved: seeded walk over "
+          "call/poll/finish, hold_last: last call withheld until everything else is idle}, poll policy fifo/lifo/seeded, optional "
+          "yield between call and first poll, total set late) on the bare Batcher under the deterministic poll scheduler: ALL "
+          "permutations for n<=6 (quick) / n<=7 (thorough), every fail-set for <=3 batches (none/all/2 seeded otherwise); an event "
+          "log req/batch_begin/batch_end/release with one logical clock is judged by an offline rule checker (R1 release after all "
+          "req of the batch and after batch_end, R2 result == batch verdict, R3 check exactly once per complete batch, with its "
+          "own state, never for an incomplete one, R4 partial last batch closes exactly at the total, R6 no idle-but-unreleased "
+          "state); misuse cases = every (legal prefix, misused record) for same-record-twice (batch pending / check running / "
+          "validated), record >= total, get_batch of a validated batch, missing total: must be Err or panic, never Ok or parked "
+          "forever (R5); sampled real users: DZKP validate_record with real proofs (batch 1,2,4,8,32 x totals incl. non-multiples) "
+          "and MAC validate_record (batch = active work 2,4,8,16, honest and with one spoiled input share) on the paused-clock "
+          "runtime with seeded request order per helper. A history is distinct by all of these parameters and non-trivial when at "
+          "least one batch check ran and one record was released (misuse: when the oracle classified the rejection)"),
+    assumptions=[
+        "'requested' means the call validate_record(i) was made (the Batcher registers the record at the call, not at the first poll)",
+        "the future of the call that completes a batch is polled to completion (dropping it mid-check is outside the property)",
+        "a misuse whose future neither fails nor completes by the time every legal record is released counts as silently accepted",
+        "real-user runs: records are admitted like seq_join (window = active work of the upgraded context) or all at once; the "
+        "order of validate_record calls is varied with seeded virtual-time pauses; MAC tamper detection is assumed (probability 1-2^-31)",
+    ],
+    shards={"quick": 8, "thorough": 16},
+    min_evaluations={"quick": 150000, "thorough": 1000000},
+    must_see=[("shapes", 24), ("modes", 12), ("histories_with_out_of_order_batch_start", 1000),
+              ("histories_with_out_of_order_batch_completion", 1000), ("partial_last_batch_closed", 1000),
+              ("release_error_classes", 2), ("misuse_kinds_rejected", 6), ("real_dzkp_honest_ok", 50),
+              ("real_mac_honest_ok", 20), ("real_mac_tampered_batch_rejected_others_ok", 20),
+              ("real_runs_with_out_of_order_requests", 20), ("real_runs_with_out_of_order_batch_release", 3)],
+)
